@@ -13,7 +13,7 @@ use exmex::DeepEx;
 use serde_json::json;
 
 fn print_histories(tape: &[u32], st: &mut Stats) -> CaseResult {
-    let cfg = HistCfg { prop: "C12", weights: [3, 5, 3, 2, 0, 1], max_steps: 4, check_print: true, check_serde: true, weird_pct: 15 };
+    let cfg = HistCfg { prop: "C12", weights: [3, 5, 3, 2, 0, 1, 1], max_steps: 4, check_print: true, check_serde: true, weird_pct: 15 };
     let out = run_history(tape, st, &cfg)?;
     st.class_if(out.printable, "table printable without ambiguity");
     st.class_if(out.steps >= 1, ">=1 transformation step");
